@@ -10,7 +10,7 @@
 (***************************************************************************)
 EXTENDS MCBase
 
-CONSTANTS MaxTags, DstExtra
+CONSTANTS MaxTags, DstExtra, MaxD, LCap, MaxN, ElfSizes, ElfRots
 
 PadByte == 238          \* 0xEE in alignment padding
 NbrByte == 221          \* 0xDD payload of the neighbouring tag
@@ -139,6 +139,54 @@ FbCase(p) ==
                [op |-> "field", kind |-> "framebuffer", f |-> "bpp"],
                [op |-> "dbg", what |-> "framebuffer"]>>,
    desc |-> [area |-> "fb"] @@ p]
+
+\* ---- Efi corpus (C18): descriptor size x version x map length, all prefixes of the iteration ------------
+\* environment plan: create, then (len, next) past the naive count, size_hint, a clone, Debug
+EfiSizes == 0..MaxD
+EfiParamsSet == UNION { { [d |-> d, v |-> v, L |-> L] : L \in 0..Min(3 * d + 9, LCap) } : d \in EfiSizes, v \in {0, 1, 2} }
+EfiTag(p) == Override(Override(RawTag(17, 16 + p.L, 0), 8, U32Bytes(p.d)), 12, U32Bytes(p.v))
+EfiNaive(p) == Min(IF p.d = 0 THEN 4 ELSE p.L \div p.d, 4)
+EfiCase(p) ==
+  [mem |-> InfoImage(<<EfiTag(p), Neighbour>>), al |-> 0,
+   calls |-> <<[op |-> "load"], [op |-> "efi_areas", it |-> 0], [op |-> "len", it |-> 0],
+               [op |-> "size_hint", it |-> 0], [op |-> "next", it |-> 0], [op |-> "clone", it |-> 0, to |-> 1]>>
+             \o Concat([i \in 1..(EfiNaive(p) + 1) |-> <<[op |-> "len", it |-> 0], [op |-> "next", it |-> 0]>>])
+             \o <<[op |-> "len", it |-> 1], [op |-> "next", it |-> 1], [op |-> "size_hint", it |-> 1],
+                  [op |-> "dbg", what |-> "efi_mmap"]>>,
+   desc |-> [area |-> "efi"] @@ p]
+
+\* ---- Elf corpus (C19): count x entry size x string-table index x section bytes x raw types --------------
+ExtAddr == <<0, 0, 0, 16, 0, 0, 0, 0>>             \* 0x1000_0000: where the harness maps the string table
+ExtData == <<0, 46, 116, 101, 120, 116, 0, 46, 195, 169, 0, 255, 0>>   \* "\0.text\0.<e-acute>\0<invalid>\0"
+RawTypes == << <<0, 0, 0, 0>>, <<1, 0, 0, 0>>, <<11, 0, 0, 0>>, <<12, 0, 0, 0>>, <<255, 255, 255, 95>>,
+               <<0, 0, 0, 96>>, <<255, 255, 255, 111>>, <<0, 0, 0, 112>>, <<255, 255, 255, 127>>, <<0, 0, 0, 128>> >>
+NameIdx == <<1, 7, 11, 0>>
+\* entry i of an ELF table with entry size es: markers, a raw type from the rotation, a valid name index,
+\* and (for the string-table entry) the external address
+ElfEntryBytes(es, i, rot, isStr) ==
+  LET b == [j \in 1..es |-> FillB(i * 64 + j)]
+      withT == IF es >= 8 THEN Override(Override(b, 0, U32Bytes(NameIdx[(i % 4) + 1])), 4, RawTypes[((i + rot) % 10) + 1]) ELSE b IN
+  IF ~isStr THEN withT
+  ELSE IF es = 40 THEN Override(withT, 12, SubSeq(ExtAddr, 1, 4))
+  ELSE IF es = 64 THEN Override(withT, 16, ExtAddr) ELSE withT
+ElfParamsSet ==
+  UNION { { [n |-> n, es |-> es, shndx |-> sh, slen |-> sl, rot |-> rot]
+            : sh \in 0..(n + 1), sl \in {0, Max(es * n, 1) - 1, es * n, es * n + 8}, rot \in ElfRots }
+          : n \in 0..MaxN, es \in ElfSizes }
+ElfTag(p) ==
+  LET body == Concat([i \in 1..p.n |-> ElfEntryBytes(p.es, i - 1, p.rot, i - 1 = p.shndx)])
+      sec == [j \in 1..p.slen |-> IF j <= Len(body) THEN body[j] ELSE FillA(j)] IN
+  U32Bytes(9) \o U32Bytes(20 + p.slen) \o U32Bytes(p.n) \o U32Bytes(p.es) \o U32Bytes(p.shndx) \o sec
+ElfNamesOk(p) == p.es \in {40, 64} /\ p.shndx < p.n /\ p.es * p.n <= p.slen
+ElfCase(p) ==
+  [mem |-> InfoImage(<<ElfTag(p), Neighbour>>), al |-> 0,
+   ext |-> [addr |-> ExtAddr, data |-> ExtData],
+   calls |-> <<[op |-> "load"], [op |-> "field", kind |-> "elf", f |-> "number_of_sections"],
+               [op |-> "elf_sections", it |-> 0]>>
+             \o [i \in 1..(p.n + 2) |-> [op |-> "next", it |-> 0, names |-> ElfNamesOk(p)]]
+             \o <<[op |-> "elf_sections_deprecated", it |-> 1], [op |-> "next", it |-> 1, names |-> FALSE],
+                  [op |-> "dbg", what |-> "elf"]>>,
+   desc |-> [area |-> "elf"] @@ p]
 
 \* ---- table sanity (evaluated once by TLC) -------------------------------------------------------------
 ASSUME \A n \in InfoKindNames : FieldsWellFormed(InfoKind(n))
